@@ -49,7 +49,12 @@ class ModelSeam:
         return self.inner(*args, **kwargs)
 
     def __getattr__(self, name):
+        if name in ('inner', 'site') or name.startswith('__'):
+            raise AttributeError(name)
         return getattr(self.inner, name)
+
+    def __reduce__(self):
+        return (ModelSeam, (self.inner, self.site))
 
 
 MODEL_SITES = {'H': '_H', 'S': '_S', 'Cn': 'Cn', 'V': 'V', 'mu': 'mu', 'kappa': 'kappa',
